@@ -10,6 +10,8 @@ Obligations
   C-dui      real Preprocessor::getcode (createDUI) == model `duiDefines` + `runFile`
   C-skel     lines kept by `runC` on the skeleton of each conditional source == lines kept by the model's directive loop == lines kept
              by the real simplecpp
+  C-passes   real simplecpp::preprocess called repeatedly on ONE raw token list (one pass per define set, as cppcheck does per
+             configuration) == model `runPasses` (every pass from scratch); P_impl: pass k == a pass over fresh raw tokens
   P-include  real Preprocessor (loadFiles + getcode, -I / --include) on generated directory trees == gcc -E (no model)
   spec       Lean specification `value` / model `runFile` == gcc -E -P -undef -nostdinc (second oracle, a sample in quick)
 P_impl       on every generated well-defined input: branch taken / token stream of the real preprocessor == gcc's.
@@ -46,6 +48,7 @@ THEOREMS = ["Cppcheck.PPCond.ifeval_eq_spec_paren",
             "Cppcheck.PPMacro.included_lines_eq_spec", "Cppcheck.PPMacro.included_lines_eq_spec_nested",
             "Cppcheck.PPMacro.runLines_included_eq_runC", "Cppcheck.PPMacro.runLines_included_lines_eq_spec",
             "Cppcheck.PPMacro.expand_function_macro_eq_subst",
+            "Cppcheck.PPMacro.pass_independent_of_history", "Cppcheck.PPMacro.pass_same_dui_same_result",
             "Cppcheck.PPMacro.D_applied", "Cppcheck.PPMacro.U_applied", "Cppcheck.PPMacro.U_applied_counterexample"]
 MODULES = ["Cppcheck.Props.C11"]
 
@@ -679,6 +682,98 @@ def sk_tie(ctx, res, drv, cases, io):
               "" if not bad and n > 0 else "%d of %d differ; first: %s" % (len(bad), n, bad[0] if bad else "no case"))
 
 
+# ---- repeated passes over one raw token list (cppcheck: one simplecpp::preprocess per configuration) ------------------------
+
+def canon_mp(l, impl):
+    """per pass canonical result of an `mp` line"""
+    p = l.split(" ")
+    if p[0] != "M":
+        return [l]
+    out = []
+    for r in p[1:]:
+        if r.startswith("T"):
+            out.append("T " + r[1:])
+        elif impl:
+            out.append(canon_pp("E " + r[1:]))
+        else:
+            out.append(re.sub(r"^(E|X)", r"\1 ", r, 1))
+    return out
+
+
+def gen_chain_source(rng):
+    """an if-section with #elif groups over macros whose -D values change from pass to pass"""
+    names = ["A", "B", "C", "DD"]
+    lines = []
+    ctr = [0]
+    for _ in range(rng.randrange(1, 4)):
+        m = rng.choice(names)
+        kind = rng.random()
+        vals = rng.sample([0, 1, 2, 3], 3)
+        if kind < 0.5:
+            conds = ["%s == %d" % (m, v) for v in vals]
+        elif kind < 0.8:
+            ms = rng.sample(names, 3)
+            conds = ["defined(%s)" % x for x in ms]
+        else:
+            conds = ["%s > %d" % (m, v) for v in vals]
+        lines.append("#if " + conds[0])
+        lines.append("t%d g0 ;" % ctr[0]); ctr[0] += 1
+        for j in range(1, rng.choice([2, 3, 3])):
+            lines.append("#elif " + conds[j])
+            if rng.random() < 0.3:
+                lines.append("#ifdef %s" % rng.choice(names))
+                lines.append("t%d nested ;" % ctr[0]); ctr[0] += 1
+                lines.append("#endif")
+            lines.append("t%d g%d ;" % (ctr[0], j)); ctr[0] += 1
+        if rng.random() < 0.7:
+            lines.append("#else")
+            lines.append("t%d other ;" % ctr[0]); ctr[0] += 1
+        lines.append("#endif")
+        lines.append("t%d between ;" % ctr[0]); ctr[0] += 1
+    return "\n".join(lines) + "\n"
+
+
+def gen_pass_defs(rng):
+    ds = []
+    for m in ["A", "B", "C", "DD"]:
+        if rng.random() < 0.5:
+            ds.append("%s=%d" % (m, rng.randrange(0, 4)))
+    return ds
+
+
+def mp_tie(ctx, res, exe, drv, n):
+    """P_impl: pass k over the SAME raw tokens == a pass over fresh raw tokens with the same dui (no memory across passes);
+    correspondence: every pass == model `runPasses` (each pass from scratch)"""
+    rng = ctx.rng
+    cases = []
+    for i in range(n):
+        src = gen_chain_source(rng) if rng.random() < 0.7 else gen_cond_source(rng, rng.choice([2, 3, 5]))
+        passes = [gen_pass_defs(rng) for _ in range(rng.choice([2, 3, 4, 5]))]
+        cases.append((src, passes))
+    ops = ["mp %s %s %s" % (CODE_Q[0], hx(s), " ".join(lst(d) for d in ps)) for s, ps in cases]
+    io = core.run_lines(exe, [], ops, timeout=600)[1]
+    mo = core.run_lines(drv, [], ops, timeout=600)[1]
+    if len(io) != len(ops) or len(mo) != len(ops):
+        raise core.CheckBroken("C11 mp: %d ops, harness %d lines, driver %d lines" % (len(ops), len(io), len(mo)))
+    fresh_ops = ["pp %s %s - %s" % (CODE_Q[0], lst(d), hx(s)) for s, ps in cases for d in ps]
+    fo = [canon_pp(x) for x in core.run_lines(exe, [], fresh_ops, timeout=600)[1]]
+    cio, cmo = [], []
+    j = 0
+    for (src, ps), i, m in zip(cases, io, mo):
+        ci, cm = canon_mp(i, True), canon_mp(m, False)
+        cio.append(" | ".join(ci)); cmo.append(" | ".join(cm))
+        for k, d in enumerate(ps):
+            f = fo[j]; j += 1
+            res.count("repeated-passes")
+            if k < len(ci) and ci[k] != f:
+                a, b = toks_of(ci[k]), toks_of(f)
+                report(res, "pass %d of simplecpp::preprocess over the same raw token list differs from a pass over fresh raw tokens with the same defines %s "
+                            "(earlier passes: %s)\n%s  pass %d on reused raw tokens: %s\n  pass on fresh raw tokens   : %s" %
+                       (k + 1, d, ps[:k], src, k + 1, " ".join(a) if a is not None else ci[k], " ".join(b) if b is not None else f),
+                       dict(kind="mp", src=src, passes=ps, pass_index=k), None)
+    core.correspond(ctx, res, "preprocess-repeated-passes", ops, cio, cmo, nontrivial=lambda op, out: True)
+
+
 # ---- M2 (audit): #include resolution, -I, --include: the real Preprocessor on files against gcc (no model) ----------------
 
 KEY_INC = {}
@@ -718,6 +813,17 @@ def gen_include_tree(rng, root):
             if guard:
                 body.append("#endif")
             put(os.path.join(pl, h) if pl else h, "\n".join(body) + "\n")
+    # an unguarded header that selects a group by a macro the includer redefines between repeated inclusions
+    sel = rng.random() < 0.6
+    if sel:
+        nel = rng.choice([1, 2, 3])
+        body = ["#if MODE == 1", "mode_1 ;"]
+        for j in range(2, 2 + nel):
+            body += ["#elif MODE == %d" % j, "mode_%d ;" % j]
+        if rng.random() < 0.8:
+            body += ["#else", "mode_other ;"]
+        body.append("#endif")
+        put("s.h", "\n".join(body) + "\n")
     put(os.path.join("sub", "z.h"), '#define Z z_sub_val\nz_sub_text ;\n' + ('#include "../x.h"\n' if "" in where["x.h"] and rng.random() < 0.5 else ""))
     forced = []
     if rng.random() < 0.5:
@@ -741,6 +847,9 @@ def gen_include_tree(rng, root):
         else:
             main.append('#include "sub/z.h"')
         main.append("use X Y W Z F ;")
+    if sel:
+        for v in [rng.randrange(1, 6) for _ in range(rng.choice([2, 3, 4]))]:
+            main += ["#define MODE %d" % v, '#include "s.h"', "#undef MODE"]
     put("main.c", "\n".join(main) + "\n")
     idirs = [os.path.join(root, d) for d in isel]
     return idirs, forced, "main.c", files
@@ -906,6 +1015,9 @@ def run(ctx, res):
     # ---- C-dui ---------------------------------------------------------------------------------------------------------------
     cd_tie(ctx, res, exe, drv, 2000 if thorough else 300)
 
+    # ---- repeated passes over one raw token list --------------------------------------------------------------------------
+    mp_tie(ctx, res, exe, drv, 1500 if thorough else 200)
+
     # ---- #include / -I / --include (no model: implementation against gcc) ----------------------------------------------------
     inc_tie(ctx, res, exe, 300 if thorough else 30)
 
@@ -929,6 +1041,17 @@ def replay(ctx, res, rp):
         it = toks_of(o)
         print("%s  simplecpp: %s\n  gcc      : %s" % (rp["src"], " ".join(it) if it is not None else o, " ".join(g) if g is not None else gerr))
         fail = g is not None and it != g
+    elif rp.get("kind") == "mp":
+        ps = rp["passes"]
+        k = rp["pass_index"]
+        i = core.run_lines(exe, [], ["mp %s %s %s" % (CODE_Q[0], hx(rp["src"]), " ".join(lst(d) for d in ps))])[1][0]
+        f = canon_pp(core.run_lines(exe, [], ["pp %s %s - %s" % (CODE_Q[0], lst(ps[k]), hx(rp["src"]))])[1][0])
+        ci = canon_mp(i, True)
+        print(rp["src"])
+        print("passes (defines): %s" % ps)
+        print("pass %d on reused raw tokens: %s" % (k + 1, " ".join(toks_of(ci[k]) or [ci[k]])))
+        print("pass on fresh raw tokens   : %s" % " ".join(toks_of(f) or [f]))
+        fail = ci[k] != f
     elif rp.get("kind") == "inc":
         root = os.path.join(ctx.tmp, "replay_inc")
         for rel, text in rp["files"].items():
